@@ -64,6 +64,8 @@ type E7Spec struct {
 	SizeGate      []FuncRuleSpec     `json:"size_gate"`
 	StaleCopy     []FuncRuleSpec     `json:"stale_copy"`
 	FieldStores   []FieldStoreSpec   `json:"forbidden_field_stores"`
+	RenderOnce    []RenderOnceSpec   `json:"render_once"`
+	CrossProduct  []FuncRuleSpec     `json:"cross_product"`
 }
 
 type FuncRuleSpec struct {
@@ -240,6 +242,12 @@ func runE7(p *Program, sp *Spec, c *Collector) {
 	}
 	for _, fs := range t.FieldStores {
 		runForbiddenFieldStore(p, c, fs)
+	}
+	for _, ro := range t.RenderOnce {
+		runRenderOnce(p, c, ro)
+	}
+	for _, cp := range t.CrossProduct {
+		runCrossProduct(p, c, cp)
 	}
 	for _, n := range t.NoExit {
 		runNoExit(p, sp, c, n)
